@@ -90,7 +90,19 @@ contract(WF, "Waveform.change_duration", props=("C01", "C16"), trusted=True,
          params={"self": ("ref", "Waveform"), "new_duration": "int"}, result=("ref", "Waveform"),
          may_raise=("NotImplementedError",),
          ensures=lambda c: [("new-duration", WDUR(T(c.res)) == T(c.new_duration)),
-                            ("keeps-non-negativity", z3.Implies(z3.Not(NEGAMP(T(c.self))), z3.Not(NEGAMP(T(c.res)))))])
+                            ("keeps-non-negativity", z3.Implies(z3.Not(NEGAMP(T(c.self))), z3.Not(NEGAMP(T(c.res))))),
+                            # (what the verified override ConstantWaveform.change_duration guarantees)
+                            ("constant-stays-constant", z3.Implies(_isinst(T(c.self), "ConstantWaveform"),
+                                                                   z3.And(_isinst(T(c.res), "ConstantWaveform"), _cval(T(c.res)) == _cval(T(c.self)))))])
+
+
+def _isinst(r, cls):
+    from pyvc.core import isinstance_term
+    return isinstance_term(r, cls)
+
+
+def _cval(w):
+    return uf("ConstantWaveform._value", Ref, R)(w)
 
 
 def dmap_of(h, cs):
@@ -142,6 +154,9 @@ def vap_ensures(c):
         ("input-average-amplitude-ok", avg_ok(p, ch)),
         ("input-detuning-within-max", z3.Implies(z3.Not(is_dmm(ch)), det_ok(p, ch))),
         ("scheduled-pulse-within-limits-if-unchanged", z3.Implies(z3.And(d1 == d0, z3.Not(is_dmm(ch))), LIMITS(r, ch))),
+        ("constant-pulse-stays-constant", z3.Implies(z3.And(_isinst(P_AMP(p), "ConstantWaveform"), _isinst(P_DET(p), "ConstantWaveform")),
+                                                     z3.And(_isinst(P_AMP(r), "ConstantWaveform"), _isinst(P_DET(r), "ConstantWaveform"),
+                                                            _cval(P_AMP(r)) == _cval(P_AMP(p)), _cval(P_DET(r)) == _cval(P_DET(p))))),
     ]
     for nm, cl in dmm_ok(p, ch, dmap_of(c.old, cs)):
         out.append((f"dmm.{nm}", z3.Implies(is_dmm(ch), cl)))
@@ -375,7 +390,24 @@ def add_ensures(c):
                                                 z3.If(P_PPS(sp) != 0, last_phase(h1, tr0(q)) == fmt(last_phase(h0, tr0(q)) + P_PPS(sp)),
                                                       last_phase(h1, tr0(q)) == last_phase(h0, tr0(q)))), patterns=[ref0(q)]))),
         ("within-max-sequence-duration", SC.MAXD(h1, sch, cs)),
+        # a constant (square) pulse is scheduled as a constant pulse with the same values, whatever the stretching and the drift correction do
+        ("constant-pulse-scheduled-as-constant", z3.Implies(z3.And(_isinst(P_AMP(p), "ConstantWaveform"), _isinst(P_DET(p), "ConstantWaveform")),
+                                                            z3.And(_isinst(P_AMP(sp), "ConstantWaveform"), _isinst(P_DET(sp), "ConstantWaveform"),
+                                                                   _cval(P_AMP(sp)) == _cval(P_AMP(p)), _cval(P_DET(sp)) == _cval(P_DET(p))))),
+        # drift-corrected adds (EOM pulses): the same drift is taken off the pulse's phase and off the targets' phase reference
+        ("drift-corrected-phase", z3.Implies(z3.And(z3.Not(drift_none), z3.Not(is_dmm(ch))),
+                                             z3.ForAll([q], z3.Implies(z3.Select(tg, q), p_phase(sp) == fmt(fmt(p_phase(p) + z3.If(last_phase(h0, tr0(q)) == 0, 0, last_phase(h0, tr0(q)))) - _drift(c, new))),
+                                                       patterns=[ref0(q)]))),
+        ("drift-taken-off-the-reference", z3.Implies(z3.Not(drift_none), z3.ForAll([q], z3.Implies(z3.Select(tg, q),
+                                                     z3.If(fmt(P_PPS(p)) - _drift(c, new) != 0, last_phase(h1, tr0(q)) == fmt(last_phase(h0, tr0(q)) + (fmt(P_PPS(p)) - _drift(c, new))),
+                                                           last_phase(h1, tr0(q)) == last_phase(h0, tr0(q)))), patterns=[ref0(q)]))),
     ] + SC.prefix(c_with(c, sch), cs) + [(f"INV.{nm}", cl) for nm, cl in SC.INV(h1, cs)] + [(f"BRINV.{nm}", cl) for nm, cl in BRINV(h1, seq)]
+
+
+def _drift(c, new):
+    """phase drift accumulated at the rate of the given parameters up to the start of the new pulse slot"""
+    pd = T(c.phase_drift_params.val)
+    return uf("DRIFT", R, I, R)(uf("_PhaseDriftParams.drift_rate", Ref, R)(pd), s_ti(new) - uf("_PhaseDriftParams.ti", Ref, I)(pd))
 
 
 class _C:
@@ -428,6 +460,8 @@ contract(SQ, "Sequence._add", props=("C01", "C03", "C07"),
          raises={"ValueError": ("only-if", lambda c: z3.BoolVal(True)), "RuntimeError": ("only-if", lambda c: z3.BoolVal(True)), "TypeError": ("only-if", lambda c: z3.BoolVal(True))},
          modifies={SC.SLOTS: lambda c: [CS(c)], "_QubitRef.last_used": add_touched_refs, BR_TIMES: add_touched_trackers, BR_PHASES: add_touched_trackers},
          loops={0: LoopSpec(add_loop_inv, modifies=("_QubitRef.last_used",))},
+         slices={"drift-taken-off-the-reference": ("targets-shifted-additively", "post-phase-shift-kept", "rate-times-elapsed-time", "frame", "pulse-slot", "drift-corrected-phase"),
+                 "drift-corrected-phase": ("phase-is-programmed-plus-reference", "drift-corrected-phase", "rate-times-elapsed-time", "frame", "pulse-slot", "targets-share-one-reference")},
          )
 
 
